@@ -627,6 +627,16 @@ class E6Anim(Engine):
             n_static = 2
         else:
             n_static = 0
+        # a Button next to the animations: its per-pass sampling is injected at the same place as the animation ticks and
+        # must neither displace nor delay them (pin 30 is never scripted: it reads LOW, so no click ever fires)
+        with_button = r.random() < 0.3
+        if with_button:
+            lines.insert(0, "from Reduino.Sensors import Button")
+            if r.random() < 0.5:
+                lines += ["def clicked():", '    mon.write("B")', "btn = Button(30, on_click=clicked)"]
+            else:
+                lines.append("btn = Button(30)")
+            n_static += len(lines) - 1 - n_static
         defs: List[str] = []
         in_loop: List[str] = []
         for i, a in enumerate(anims):
